@@ -13,6 +13,8 @@ pub mod c05;
 #[cfg(kani)]
 pub mod c06;
 #[cfg(kani)]
+pub mod c02;
+#[cfg(kani)]
 pub mod c03;
 #[cfg(kani)]
 pub mod c07;
